@@ -39,8 +39,7 @@ TRUSTED = ["Model/Pratt.v (precedence climbing with the yacc rank rule) stands i
            "the real lexer supplies the token list (the lexer is not part of this property's model)",
            "harness/props/c02.py: tree canonicalisation (class, operator/function name, argument trees; Wrap kept), "
            "the pinned copies SPEC_DEFAULT/SPEC_LEGACY of the documented tables, the brute-force wf-tree search"]
-ASSUMPTIONS = ["allow_delegates=False (the `value(args)` call rule of parser.py:91-101 is not modelled)",
-               "no symbol is both a suffix and a binary operator (tables with one are reported as uncovered)",
+ASSUMPTIONS = [               "no symbol is both a suffix and a binary operator (tables with one are reported as uncovered)",
                "operator tables are edited only through insert_operator; NAME_VALUE_PAIR is never inserted through it"]
 EXPLANATION = ("proof on the model that parse returns the unique tree (all constructs) satisfying the table's local "
                "reading, that insert_operator keeps groups contiguous, pinned default/legacy tables; differential check "
@@ -67,6 +66,41 @@ def canon_ops(ops):
 
 SPEC_DEFAULT = canon_ops([("=>", NV)] + _STD)
 SPEC_LEGACY = canon_ops(_STD[:-2] + [(), ("=>", L, None)] + _STD[-2:])
+
+# engine kinds: "default" | "legacy" | "nokw" (keyword_operator=None) | "kw<SYM>" (custom keyword operator),
+# each optionally followed by "+delegates" (allow_delegates=True)
+BASE_KINDS = ["default", "legacy", "default+delegates", "legacy+delegates", "nokw", "kw:=", "kw~>+delegates"]
+
+
+def kind_parts(kind):
+    base, _, opt = kind.partition("+")
+    return base, opt == "delegates"
+
+
+def make_factory(kind):
+    import yaql
+    from yaql import legacy
+    base, deleg = kind_parts(kind)
+    if base == "legacy":
+        return legacy.YaqlFactory(allow_delegates=deleg)
+    if base == "default":
+        return yaql.YaqlFactory(allow_delegates=deleg)
+    if base == "nokw":
+        return yaql.YaqlFactory(keyword_operator=None, allow_delegates=deleg)
+    assert base.startswith("kw"), kind
+    return yaql.YaqlFactory(keyword_operator=base[2:], allow_delegates=deleg)
+
+
+def spec_base(kind):
+    """the documented operator list of a factory of this kind"""
+    base, _ = kind_parts(kind)
+    if base == "legacy":
+        return SPEC_LEGACY
+    if base == "default":
+        return SPEC_DEFAULT
+    if base == "nokw":
+        return canon_ops(_STD)
+    return canon_ops([(base[2:], NV)] + _STD)
 
 
 # --------------------------------------------------------------------------------------------
@@ -129,6 +163,10 @@ def left_spine_ok(x, pend_group, T):
             if not shifts(T.bin["[]"], pend_group):
                 return False
             x = x[1]
+        elif x[0] == "CallV":
+            if not shifts(CALL_ROLE, pend_group):
+                return False
+            x = x[1]
         else:
             return True
 
@@ -140,7 +178,10 @@ def tk(t):
     return t if isinstance(t, str) else t[0]
 
 
-def wf_trees(toks, ops, limit=4):
+CALL_ROLE = (float("inf"), L)     # `value(args)`: looser than every operator, so nothing pending is extended by it
+
+
+def wf_trees(toks, ops, limit=4, delegates=False):
     """all trees with yield == toks that satisfy the table's local reading (brute force, chart)."""
     T = Roles(ops)
     n = len(toks)
@@ -206,6 +247,12 @@ def wf_trees(toks, ops, limit=4):
                     for x in trees(i, k):
                         if right_spine_ok(x, T.bin["[]"], T):
                             res += [("Index", x, a) for a in slots(k + 1, j - 1)]
+            if tk(last) == ")" and delegates:
+                k = [o for o, c in match.items() if c == j - 1][0]
+                if k > i and depth[k] == depth[i] and tk(toks[k]) == "(":
+                    for x in trees(i, k):
+                        if right_spine_ok(x, CALL_ROLE, T):
+                            res += [("CallV", x, a) for a in slots(k + 1, j - 1)]
             if tk(first) == "op" and first[1] in T.pre:
                 for x in trees(i + 1, j):
                     if left_spine_ok(x, T.pre[first[1]], T):
@@ -257,7 +304,8 @@ class Eng:
         from yaql import legacy
         from yaql.language import exceptions
         self.kind, self.calls = kind, [tuple(c) for c in calls]
-        self.factory = legacy.YaqlFactory() if kind == "legacy" else yaql.YaqlFactory()
+        self.factory = make_factory(kind)
+        self.delegates = kind_parts(kind)[1]
         self.history = []          # (ops before, call, ops after | None)
         for c in self.calls:
             before = canon_ops(self.factory.operators)
@@ -281,7 +329,7 @@ class Eng:
             self.name2sym = {v[2]: k for k, v in self.built.operators.items()}
         # the table the engine must follow: the pinned base table with the call sequence applied by the
         # CONTRACT of insert_operator (spec_insert), not factory.operators read back
-        self.spec_ops = {"default": SPEC_DEFAULT, "legacy": SPEC_LEGACY}[kind]
+        self.spec_ops = spec_base(kind)
         for c in self.calls:
             self.spec_ops = spec_insert(self.spec_ops, c)
 
@@ -356,6 +404,8 @@ class Eng:
             return ("List", self.conv_args(e.args))
         if isinstance(e, E.MapExpression):
             return ("Map", self.conv_args(e.args))
+        if type(e) is E.Function and e.name == "#call" and self.delegates:
+            return ("CallV", self.conv(e.args[0]), self.conv_args(e.args[1:]))
         if type(e) is E.Function:
             return ("Call", e.name, self.conv_args(e.args))
         raise TypeError("unexpected node %r" % type(e).__name__)
@@ -424,6 +474,8 @@ class Printer:
             return "ListE (%s)" % self.args(t[1])
         if k == "Map":
             return "MapE (%s)" % self.args(t[1])
+        if k == "CallV":
+            return "CallV (%s) (%s)" % (self.tree(t[1]), self.args(t[2]))
         if k == "Call":
             return "Call %s (%s)" % (self.sym(t[1]), self.args(t[2]))
         raise ValueError(t)
@@ -445,6 +497,10 @@ def case_term(symdefs, toks, obs):
     ts = gal.lst(p.tok(t) for t in toks)
     tr = "None" if obs[0] == "err" else "(Some (%s))" % p.tree(obs[1])
     return "{| c_toks := %s; c_tree := %s |}" % (ts, tr)
+
+
+def ok_fn(eng):
+    return "(case_ok_with %s the_built)" % gal.boolean(eng.delegates)
 
 
 def header_for(ops, symdefs):
@@ -497,6 +553,7 @@ class TableView:
         self.has_index = "[]" in T.bin
         self.has_map = "{}" in T.bin
         self.kw = eng.built.name_value_op
+        self.delegates = eng.delegates
 
 
 def gen_pairs(eng, rng, nops, max_prefix, sample=None):
@@ -544,6 +601,17 @@ def gen_focus(eng, rng):
             yield join(rng, ["a", s_, o, "b"])
         if V.has_index:
             yield join(rng, ["a", s_, "[", "1", "]", s_])
+    if V.delegates:
+        for o in V.binary:
+            yield join(rng, ["a", o, "b", "(", "c", ")"])
+            yield join(rng, ["a", "(", "b", ")", o, "c"])
+        for p in V.prefix:
+            yield join(rng, [p, "a", "(", "b", ")"])
+        for s_ in V.suffix:
+            yield join(rng, ["a", s_, "(", "b", ")", s_])
+        for t in (["a", "(", "b", ")", "(", "c", ")"], ["a", "[", "1", "]", "(", "b", ")", "[", "2", "]"],
+                  ["(", "a", ")", "(", "b", ")"], ["f(", "x", ")", "(", ",", "y", ")"], ["a", "(", ")"]):
+            yield join(rng, t)
     for o in V.binary:
         if V.has_index:
             yield join(rng, ["a", o, "b", "[", "1", "]"])
@@ -562,6 +630,8 @@ def gen_expr(V, rng, depth):
         return [rng.choice(V.prefix)] + gen_expr(V, rng, depth - 1)
     if r < 0.66 and V.suffix:
         return gen_expr(V, rng, depth - 1) + [rng.choice(V.suffix)]
+    if r < 0.70 and V.delegates:
+        return gen_expr(V, rng, depth - 1) + ["("] + gen_args(V, rng, depth - 1, small=True) + [")"]
     if r < 0.72:
         return ["("] + gen_expr(V, rng, depth - 1) + [")"]
     if r < 0.80 and V.has_index:
@@ -754,7 +824,7 @@ def check_text(run, eng, text, cases, meta, where):
 def oracle_one(eng, text, toks, obs):
     """None if fine, else (what, data)"""
     ops = eng.spec_ops if eng.spec_ops is not None else eng.ops
-    want = wf_trees(toks, ops)
+    want = wf_trees(toks, ops, delegates=eng.delegates)
     label = ("the pinned %s table" % eng.kind) + (" with the insert_operator calls applied as documented" if eng.calls else "")
     base = {"engine": eng.spec(), "text": text, "tokens": [repr(t) for t in toks],
             "observed": obs[1] if obs[0] == "ok" else "YaqlGrammarException", "table": label}
@@ -776,7 +846,7 @@ def flush(run, eng, cases, meta):
         return
     symdefs = {}
     terms = [case_term(symdefs, toks, obs) for toks, obs in cases]
-    bad = run.coq_mismatches(header_for(eng.ops, symdefs), "case", "(case_ok the_built)", terms, shard=400)
+    bad = run.coq_mismatches(header_for(eng.ops, symdefs), "case", ok_fn(eng), terms, shard=400)
     for i in bad[:20]:
         toks, obs = cases[i]
         v = oracle_one(eng, meta[i], toks, obs)
@@ -900,6 +970,8 @@ def insert_violation(before, c, after):
 # of their own (tightest / loosest), an operator with alias, a symbol that is prefix and binary
 FIXED = [
     ("default", [("->", True, "!", P, False, None)]),
+    ("default+delegates", [(".", True, "**", R, True, "power"), ("**", True, "~", P, False, None),
+                           ("-", False, "!", S, True, None)]),
     ("default", [(".", True, "**", R, True, "power"), ("**", True, "~", P, False, None)]),
     ("default", [("-", False, "!", S, True, None), ("!", False, "?", S, False, "maybe")]),
     ("default", [("->", True, "!!", S, True, None), ("or", True, "xor", L, False, None)]),
@@ -921,14 +993,13 @@ FIXED = [
 
 
 def engines_for(run, n_random):
-    engs = [Eng("default"), Eng("legacy")] + [Eng(k, c) for k, c in FIXED]
+    engs = [Eng(k) for k in BASE_KINDS] + [Eng(k, c) for k, c in FIXED]
     for e in engs:
         e.mixed = False
     for i in range(n_random):
-        base = "legacy" if run.rng.random() < 0.25 else "default"
+        base = run.rng.choice(["default"] * 5 + ["legacy", "legacy", "default+delegates", "legacy+delegates", "nokw", "kw:="])
         mixed = run.rng.random() < 0.2
-        calls = gen_calls(run.rng, canon_ops(engs[1 if base == "legacy" else 0].factory.operators),
-                          run.rng.randrange(1, 7), mixed)
+        calls = gen_calls(run.rng, spec_base(base), run.rng.randrange(1, 7), mixed)
         e = Eng(base, calls)
         e.mixed = mixed
         engs.append(e)
@@ -961,6 +1032,11 @@ def texts_for(run, eng, idx):
                 yield "triples+2prefix (sample)", t
         for t in gen_random(eng, rng, run.n(500, 10000)):
             yield "random", t
+    elif not eng.calls:                             # the other factory kinds (delegates, keyword operator variants)
+        for t in gen_pairs(eng, rng, 2, 1, sample=run.n(500, 7000)):
+            yield "%s pairs" % eng.kind, t
+        for t in gen_random(eng, rng, run.n(400, 8000)):
+            yield "%s random" % eng.kind, t
     else:
         for t in gen_pairs(eng, rng, 2, 1, sample=run.n(60, 600)):
             yield "custom pairs", t
@@ -996,8 +1072,8 @@ def correspondence(run):
             if obs is not None and k % 997 == 0:
                 run.sample({"engine": e.spec(), "text": text, "tree": obs})
         flush(run, e, cases, meta)
-    run.note("engines: default, legacy, %d built by insert_operator sequences (%d of them with mixed groups)"
-             % (len(engs) - 2, sum(1 for e in engs[2:] if getattr(e, "mixed", False))))
+    run.note("engines: %s; %d built by insert_operator sequences (%d of them with mixed groups)"
+             % (", ".join(BASE_KINDS), len(engs) - len(BASE_KINDS), sum(1 for e in engs if getattr(e, "mixed", False))))
     run.note("of these %d are fixed tables (prefix operator inside the right-associative group, tighter "
              "right-associative group, suffix groups, aliases, prefix+binary symbol)" % len(FIXED))
 
@@ -1005,7 +1081,7 @@ def correspondence(run):
 def oracle(run, deep):
     """brute-force unique-wf-tree oracle on the implementation (independent of the Coq model)"""
     engs = _engs or engines_for(run, run.n(12, 200))
-    for idx, e in enumerate(engs[:2]):
+    for idx, e in enumerate(engs[:len(BASE_KINDS)]):
         if canon_ops(e.factory.operators) != e.spec_ops:
             run.note("the %s factory's operator list differs from the pinned table; searching for a text that shows it" % e.kind)
             deep = True
@@ -1018,6 +1094,8 @@ def oracle(run, deep):
             texts = list(gen_pairs(e, rng, 2, 1)) if deep else list(gen_pairs(e, rng, 2, 1, sample=run.n(1200, 4000)))
             texts += list(gen_pairs(e, rng, 3, 1, sample=run.n(300, 20000) * (3 if deep else 1)))
             texts += list(gen_random(e, rng, run.n(400, 6000) * (3 if deep else 1)))
+        elif not e.calls:
+            texts = list(gen_focus(e, rng)) + list(gen_pairs(e, rng, 2, 1, sample=run.n(300, 3000))) + list(gen_random(e, rng, run.n(300, 4000)))
         else:
             texts = list(gen_focus(e, rng)) + list(gen_pairs(e, rng, 2, 1, sample=run.n(40, 300))) + list(gen_random(e, rng, run.n(40, 400)))
         for text in texts:
@@ -1093,4 +1171,4 @@ def replay(run, data):
         return False
     symdefs = {}
     term = case_term(symdefs, toks, obs)
-    return not run.coq_mismatches(header_for(e.ops, symdefs), "case", "(case_ok the_built)", [term])
+    return not run.coq_mismatches(header_for(e.ops, symdefs), "case", ok_fn(e), [term])
